@@ -660,9 +660,188 @@ def concrete_overlap(w) -> Optional[str]:
         Engine.cur = prev
 
 
+# ------------------------------------------------------------------ an iterator suspended at a yield, resumed after the application closed
+def iter_resume_scenario(which: str, frames_before_close: int, close_kind: int):
+    srv = Server([0, 1, 1, 1, 2], [cpayload(i, k) for i, k in enumerate([0, 1, 1, 1, 2])])
+    ws = WebSocket({"type": "websocket", "path": "/", "headers": [], "subprotocols": []}, srv.receive, srv.send)
+    drive(ws.accept())
+    it = ws.iter_text() if which == "text" else ws.iter_bytes()
+    got = []
+    for _ in range(frames_before_close):
+        got.append(drive(it.__anext__()))
+    if close_kind == 0:
+        drive(ws.close())
+    else:
+        drive(ws.send({"type": "websocket.close", "code": 1001}))
+    receives_before = srv.n
+    try:
+        nxt = drive(it.__anext__())
+        outcome = ("returned", nxt)
+    except StopAsyncIteration:
+        outcome = ("ended", None)
+    except Fail:
+        raise
+    except Exception as ex:  # noqa: BLE001
+        outcome = ("raised", type(ex).__name__)
+    return outcome, srv.n - receives_before, [m["type"] for m in srv.sent]
+
+
+def iter_resume_verdict(outcome, extra_receives, forwarded):
+    if outcome[0] == "returned":
+        raise Fail("read-after-close-returned-a-frame", repr(outcome[1]))
+    if extra_receives:
+        raise Fail("receive-issued-after-the-application-closed", f"{extra_receives} receive(s)")
+    if forwarded != ["websocket.accept", "websocket.close"]:
+        raise Fail("illegal-forward", str(forwarded))
+
+
+def job_iter_resume(job) -> report.JobResult:
+    res = report.JobResult.new(job["name"])
+    twin = job.get("twin", False)
+    eng = Engine(budget_s=300)
+
+    def fn():
+        e = cur()
+        k = e.choose(3, "frames_before_close")
+        ck = e.choose(2, "close_kind")
+        e.path_notes.update(frames_before_close=k, close_kind=ck)
+        iter_resume_verdict(*iter_resume_scenario(job["which"], k, ck))
+        if twin:
+            raise Fail("twin-assert-false")
+        return "raised"
+
+    def on_path(e, r):
+        kind, v = r
+        wit = {"iterator": job["which"], "frames_before_close": e.path_notes.get("frames_before_close"), "close_kind": e.path_notes.get("close_kind")}
+        if kind == "exc":
+            klass, detail = (v.klass, v.detail) if isinstance(v, Fail) else (f"exception:{type(v).__name__}", repr(v))
+            cp = concrete_iter_resume(wit)
+            res.violation(f"C11/iterator-resumed-after-close/{klass.split(':')[0]}", wit, f"{klass} {detail}; concrete: {cp}", (cp is not None) or twin)
+            return
+        res.kind("raised")
+        res["validated"] += 1
+        res.sample(wit, limit=1)
+    eng.explore(fn, on_path)
+    res.absorb_engine(eng)
+    return res
+
+
+def concrete_iter_resume(w) -> Optional[str]:
+    prev = Engine.cur
+    Engine.cur = None
+    try:
+        iter_resume_verdict(*iter_resume_scenario(w["iterator"], w["frames_before_close"], w["close_kind"]))
+        return None
+    except Fail as f:
+        return f"{f.klass}: {f.detail}"
+    finally:
+        Engine.cur = prev
+
+
+# ------------------------------------------------------------------ the websocket_session entry point with views that fail
+SESSION_VIEWS = {
+    # what the view does before it raises ValueError("view failed") -- or returns, for the last one
+    "raise-before-accept": [],
+    "accept-raise": ["accept"],
+    "accept-close-raise": ["accept", "close"],
+    "accept-close-stray-send": ["accept", "close", "send_text"],   # the wrapper's own RuntimeError escapes the view
+    "reject-raise": ["close_code"],
+    "accept-receive-raise": ["accept", "receive_text"],
+    "accept-close-return": ["accept", "close", "return"],
+}
+
+
+def session_scenario(view_name: str):
+    import baize.asgi.shortcut as SC
+    steps = SESSION_VIEWS[view_name]
+    srv = Server([0, 1, 2], [cpayload(i, k) for i, k in enumerate([0, 1, 2])])
+
+    async def view(ws):
+        for st in steps:
+            if st == "accept":
+                await ws.accept()
+            elif st == "close":
+                await ws.close()
+            elif st == "close_code":
+                await ws.close(1008, "no")
+            elif st == "send_text":
+                await ws.send_text("late")
+            elif st == "receive_text":
+                await ws.receive_text()
+            elif st == "return":
+                return
+        raise ValueError("view failed")
+    app = SC.websocket_session(view)
+    try:
+        drive(app({"type": "websocket", "path": "/", "headers": [], "subprotocols": []}, srv.receive, srv.send))
+        outcome = "returned"
+    except Fail:
+        raise
+    except Exception as ex:  # noqa: BLE001
+        outcome = type(ex).__name__
+    return outcome, [m["type"] for m in srv.sent]
+
+
+def session_verdict(outcome, fw):
+    if fw and fw[0] not in ("websocket.accept", "websocket.close"):
+        raise Fail("data-before-accept", str(fw))
+    if fw.count("websocket.close") > 1:
+        raise Fail("close-forwarded-twice", str(fw))
+    if "websocket.close" in fw and fw[fw.index("websocket.close") + 1:]:
+        raise Fail("event-forwarded-after-close", str(fw))
+    if fw.count("websocket.accept") > 1:
+        raise Fail("accept-forwarded-twice", str(fw))
+
+
+def job_session(job) -> report.JobResult:
+    res = report.JobResult.new(job["name"])
+    twin = job.get("twin", False)
+    eng = Engine(budget_s=300)
+    names = sorted(SESSION_VIEWS)
+
+    def fn():
+        e = cur()
+        v = names[e.choose(len(names), "view")]
+        e.path_notes["view"] = v
+        session_verdict(*session_scenario(v))
+        if twin:
+            raise Fail("twin-assert-false")
+        return "forwarded"
+
+    def on_path(e, r):
+        kind, v = r
+        wit = {"session_view": e.path_notes.get("view")}
+        if kind == "exc":
+            klass, detail = (v.klass, v.detail) if isinstance(v, Fail) else (f"exception:{type(v).__name__}", repr(v))
+            cp = concrete_session(wit)
+            res.violation(f"C11/websocket_session/{klass.split(':')[0]}", wit, f"{klass} {detail}; concrete: {cp}", (cp is not None) or twin)
+            return
+        res.kind("forwarded")
+        res["validated"] += 1
+        res.sample(wit, limit=1)
+    eng.explore(fn, on_path)
+    res.absorb_engine(eng)
+    return res
+
+
+def concrete_session(w) -> Optional[str]:
+    prev = Engine.cur
+    Engine.cur = None
+    try:
+        session_verdict(*session_scenario(w["session_view"]))
+        return None
+    except Fail as f:
+        return f"{f.klass}: {f.detail}"
+    finally:
+        Engine.cur = prev
+
+
 def jobs(tier: str):
     b = META["bounds"][tier]
     out = [dict(name=f"step/{c}", kind="step", call=c) for c in CALLS]
+    out.append(dict(name="websocket_session/failing-views", kind="session"))
+    for which in ("text", "bytes"):
+        out.append(dict(name=f"iter-{which}/resumed-after-close", kind="iter-resume", which=which))
     for prog in TWO_TASK_PROGRAMS:
         out.append(dict(name=f"two-tasks/{prog}", kind="overlap", prog=prog, weight=30))
     out.append(dict(name="twin/step/accept", kind="step", call="accept", twin=True))
@@ -676,11 +855,19 @@ def jobs(tier: str):
 
 
 def run_job(job):
-    return {"step": job_step, "seq": job_seq, "denial": job_denial, "overlap": job_overlap}[job["kind"]](job)
+    return {"step": job_step, "seq": job_seq, "denial": job_denial, "overlap": job_overlap, "iter-resume": job_iter_resume, "session": job_session}[job["kind"]](job)
 
 
 def replay(rec) -> int:
     w = rec["witness"]
+    if "session_view" in w:
+        cp = concrete_session(w)
+        print(f"replay C11: {w} -> {cp}")
+        return 1 if cp else 0
+    if "iterator" in w:
+        cp = concrete_iter_resume(w)
+        print(f"replay C11: {w} -> {cp}")
+        return 1 if cp else 0
     if "two_tasks" in w:
         cp = concrete_overlap(w)
         print(f"replay C11: {w} -> {cp}")
